@@ -24,6 +24,8 @@ def build_input(case):
         ts = tsspace.historical_leaf(ts, H["leaf"], 0.5 * s)
     if case.get("diploid"):
         ts = add_individuals(ts)
+    if case.get("renumber"):
+        ts, _ = tsspace.renumber_nodes(ts, case["renumber"])
     return ts, s
 
 
